@@ -121,6 +121,52 @@ def w_inner(code_lo: int, code_hi: int) -> Part:
     return part
 
 
+def scf_case(scf: int, dst: str, sender: int, body: str) -> list[tuple[str, str]]:
+    """One A_SecureData frame with the given security control field octet through the real receive path."""
+    own = 0x1105
+    da, group = {"keyed-group": (KEYED, True), "unkeyed-group": (UNKEYED, True), "own-address": (own, False), "other-address": (0x1107, False)}[dst]
+    rx = Receiver({KEYED: KEY}, {SENDER: 0}, own=own)
+    if body == "reference-mac":
+        raw = secure_frame(KEY, sender, da, 5, bytes.fromhex("0081"), encrypt=bool(scf & 0x10), dst_is_group=group, scf=scf)
+    else:
+        from ..dsecure import encode_ldata
+
+        sec_apdu = bytes((0x03, 0xF1, scf)) + (5).to_bytes(6, "big") + (b"" if body == "no-apdu" else b"\x5a\xa5") + b"\xde\xad\xbe\xef"
+        raw = encode_ldata(0x29, priority=3, repeat_on_error=False, system_broadcast=False, ack=False, confirm_error=False, hop_count=6, dst_is_group=group, src=sender, dst=da, tpci_octet=0, apdu=sec_apdu)
+    got, issues, exc = rx.feed(raw)
+    tag = f"{'reserved-algorithm' if scf & 0x60 else 'known-algorithm'}:{'tool' if scf & 0x80 else 'no-tool'}:{'sbc' if scf & 0x08 else 'no-sbc'}:service-{scf & 7}"
+    if exc is not None:
+        return [(exc_sig(f"secure-frame-raises:scf:{dst}", exc), f"scf={scf:#04x} ({tag}) to {dst} from {sender:#06x}, body {body}: {exc!r}")]
+    plain_ok = scf in (0x00, 0x10) and dst == "keyed-group" and sender == SENDER and body == "reference-mac"
+    if got and not plain_ok:
+        return [(f"secure-frame-delivered-wrongly:scf:{dst}", f"scf={scf:#04x} ({tag}) to {dst} from {sender:#06x}, body {body}: delivered {got}")]
+    if plain_ok and (len(got) != 1 or not got[0].data_secure):
+        return [("secured-frame-not-delivered", f"scf={scf:#04x} to {dst}: {got}")]
+    return []
+
+
+def w_scf(lo: int, hi: int) -> Part:
+    """EVERY security control field octet x destination kind x known/unknown sender x body (reference MAC, garbage, no secured APDU)."""
+    part = Part()
+    orig = Management.process
+    Management.process = lambda self, telegram: None  # type: ignore[method-assign]
+    try:
+        for scf in range(lo, hi):
+            for dst in ("keyed-group", "unkeyed-group", "own-address", "other-address"):
+                for sender in (SENDER, 0x1109):
+                    for body in ("reference-mac", "garbage", "no-apdu"):
+                        part.evaluations += 1
+                        if scf not in (0x00, 0x10):
+                            part.nontrivial += 1
+                        viols = scf_case(scf, dst, sender, body)
+                        part.outcomes["bad" if viols else "ok"] += 1
+                        for sig, detail in viols:
+                            part.viol(sig, detail, {"kind": "scf", "scf": scf, "dst": dst, "sender": sender, "body": body}, rank=(bin(scf).count("1"), scf))
+    finally:
+        Management.process = orig  # type: ignore[method-assign]
+    return part
+
+
 def w_outgoing() -> Part:
     """Every telegram to a keyed group leaves send_telegram secured (and plain groups stay plain)."""
     part = Part()
@@ -278,18 +324,26 @@ def run(ctx: Ctx) -> None:
         "unknown sender; correctly authenticated frames (both algorithms) carrying ONE representative of EVERY (APCI code, failure kind) class of the C04 struct space (all 1024 codes) plus empty and "
         "1-octet inner APDUs; outgoing telegrams of 5 payload kinds to keyed/unkeyed groups through send_telegram. Oracle: nothing raises; plain->keyed only reaches the key-issue callbacks; "
         "malformed content is never delivered; outgoing to keyed groups is always a SecureAPDU that a second receiver decodes to the original; the plain/secured/outgoing clauses again with Data Secure initialised through "
-        "CEMIHandler.data_secure_init(keyring) over 10 keyring shapes (1-2 keyed groups x senders known from nothing / an interface / the device list / both / an interface entry without senders)"
+        "CEMIHandler.data_secure_init(keyring) over 10 keyring shapes (1-2 keyed groups x senders known from nothing / an interface / the device list / both / an interface entry without senders); A_SecureData frames with EVERY security control field octet (256) x destination {keyed group, unkeyed group, own address, other address} x known/unknown sender x body {reference MAC, garbage, no secured APDU}: nothing raises, only S-A_Data with a known algorithm and a verifying MAC to the keyed group from the known sender is delivered"
     )
     ctx.pmap(w_plain_and_secured, [()])
     ctx.pmap(w_inner, [(c, c + 64) for c in range(0, 1024, 64)])
     ctx.pmap(w_outgoing, [()])
     ctx.pmap(w_keyring_init, [()])
+    ctx.pmap(w_scf, [(c, c + 16) for c in range(0, 256, 16)])
 
 
 def replay(case: Any) -> list[tuple[str, str]]:
     if case.get("kind") == "keyring-init":
         p = w_keyring_init()
         return [(sg, v[1]) for sg, v in p.viols.items()]
+    if case.get("kind") == "scf":
+        orig = Management.process
+        Management.process = lambda self, telegram: None  # type: ignore[method-assign]
+        try:
+            return scf_case(case["scf"], case["dst"], case["sender"], case["body"])
+        finally:
+            Management.process = orig  # type: ignore[method-assign]
     if case.get("kind") == "inner":
         orig = Management.process
         Management.process = lambda self, telegram: None  # type: ignore[method-assign]
